@@ -73,7 +73,12 @@ class P(ServeProp):
                 if len(q) >= 4 and len(q) % 3 == 0:
                     a, b, c = q[:len(q) // 3], q[len(q) // 3:2 * len(q) // 3], q[2 * len(q) // 3:]
                     nm = self.encode(a) or "k"
-                    q = nm + "=" + self.encode(b) + "&j=" + self.encode(c) + "&" + nm + "=" + self.encode(c) + ("&" + nm + "=" if len(q) % 2 else "")
+                    fields = [(a or "k", b), ("j", c), (a or "k", c)] + ([(a or "k", "")] if len(q) % 2 else [])
+                    q = "&".join(self.encode(k) + "=" + self.encode(v) for k, v in fields)
+                    last = {}
+                    for k, v in fields: last[k] = v           # what the property asks for names that repeat: the last submitted value
+                    out.append("pq %s # unsafe=%d n=%d want=%s" % (hx(q), any(unsafe(k) or unsafe(v) for k, v in fields), len(last), ";".join(hx(k) + ":" + hx(v) for k, v in last.items())))
+                    continue
                 out.append("pq " + hx(q))
             else:
                 # the echo endpoints: the encoder's output sent on the wire
@@ -134,6 +139,9 @@ class P(ServeProp):
             want = "OK " + ";".join(sorted(kv.replace(":", "=") if ":" in kv else kv + "=" for kv in ([] if f[1] == "-" else f[1].split(";"))))
             got = out.split(" | ", 1)[1]
             return None if got == want else "decoded-fields-differ"
+        if f[0] == "pq" and "want" in m and out != "SKIP":
+            want = "OK " + ";".join(sorted(kv.replace(":", "=") for kv in m["want"].split(";")))
+            return None if out == want else "last-submitted-value-does-not-win"
         if f[0] == "pct" and out != "SKIP":
             orig = f[1] if len(f) > 1 else ""
             got = out.split(" | D ", 1)[1] if " | D " in out else out.split("| D")[1].strip()
@@ -152,7 +160,7 @@ class P(ServeProp):
         return None
 
     def classify(self, line, out, sig):
-        if meta(line).get("unsafe") == "1" and sig in ("decoded-fields-differ", "percent-decode-of-encode-differs", "echoed-fields-differ"):
+        if meta(line).get("unsafe") == "1" and sig in ("decoded-fields-differ", "percent-decode-of-encode-differs", "echoed-fields-differ", "last-submitted-value-does-not-win"):
             return "C17-F1"
         return None
 
